@@ -173,7 +173,8 @@ def gen_case(rng, tier="quick"):
         elif k == "mutate_after":
             ops.append(["mutate_after", _pick(rng, ["system", "bath", "mps",
                                                     "control", "pt_tensor",
-                                                    "pt_edit"]),
+                                                    "pt_edit",
+                                                    "bath_getter"]),
                         _pick(rng, LAYOUTS)])
         elif k == "fault_then":
             ops.append(["fault_then", rng.randrange(8), rng.randrange(1, 4)])
@@ -967,6 +968,45 @@ def _run_case(case, dec, pristine):
                         pt.compute_caps()
                         got = use(pt)
                         want = use(build([t1[0], new1]))
+                elif which == "bath_getter":
+                    # a computation is set up from a bath; afterwards the
+                    # caller changes the object that bath.correlations
+                    # handed out; the computation set up earlier must not
+                    # notice (whether or not the bath itself follows)
+                    need_bath()
+                    cands = [x for x in baths if x["kind"] == "powerlaw"]
+                    if not cands:
+                        continue
+                    b = cands[0]
+                    tp = oqupy.TempoParameters(dt=0.1, epsrel=EPSREL,
+                                               dkmax=2)
+
+                    def mkt(bath):
+                        return oqupy.Tempo(oqupy.System(0.5 * o["x"]), bath,
+                                           tp, RHO0, 0.0)
+                    early = mkt(b["obj"])
+                    fresh_early = mkt(fresh_bath(b))
+                    handed = b["obj"].correlations
+                    handed.temperature = float(b["vals"]["temperature"]) + 2.5
+                    handed.alpha = float(b["vals"]["alpha"]) * 2.0
+                    got = early.compute(0.35, progress_type="silent").states
+                    want = fresh_early.compute(
+                        0.35, progress_type="silent").states
+                    # the model follows whatever the bath now says about
+                    # itself (public attributes)
+                    now = b["obj"].correlations
+                    b["vals"]["temperature"] = float(now.temperature)
+                    b["vals"]["alpha"] = float(now.alpha)
+                    ok, err = _close(got, want, TOL_T)
+                    stats["computations"] += 1
+                    log.ev("mutate_after", which, ok)
+                    if not ok:
+                        viol("object_follows_callers_array", which,
+                             "a Tempo object set up from a bath changed "
+                             "(by %.3g) when the caller later modified the "
+                             "object handed out by bath.correlations" % err,
+                             holder="Bath.correlations")
+                    continue
                 elif which == "mps":
                     arr = layout(o["up"], "c")
                     mps = oqupy.AugmentedMPS([arr, arr])
